@@ -277,9 +277,7 @@ def pnMax (s : String) : Option Int :=
   | some v => if -1 ≤ v ∧ v < 4611686018427387904 then some v else none
   | none => none
 
-def driverStep (t : List String) : String :=
-  match t with
-  | ["long", suite, ptype, version, dcid, scid, token, pnum, maxAcked, recvMax, payload, lim] =>
+def driverStepLong (suite ptype version dcid scid token pnum maxAcked recvMax payload lim : String) : String :=
     (do
       let ptype ← parseNat ptype
       if ptype < 1 ∨ ptype > 3 then none
@@ -294,6 +292,17 @@ def driverStep (t : List String) : String :=
       if suite == "toy" then pure (showPW (fun bs => showLong (toy 0) bs recvMax) r)
       else if suite == "aes128" ∨ suite == "aes256" ∨ suite == "chacha" then pure (pwLen r)
       else none).getD "bad-op"
+
+def driverStep (t : List String) : String :=
+  match t with
+  | ["long", suite, ptype, version, dcid, scid, token, pnum, maxAcked, recvMax, payload, lim] =>
+    driverStepLong suite ptype version dcid scid token pnum maxAcked recvMax payload lim
+  | ["longfill", suite, ptype, version, dcid, scid, token, pnum, maxAcked, recvMax, fill, fb, lim] =>
+    (do
+      let n ← parseNat fill; let b ← parseNat fb
+      if n > 70000 ∨ b > 255 then none
+      let payload := hexOfBytes ((List.range n).map (fun i => (b + i) % 256))
+      pure (driverStepLong suite ptype version dcid scid token pnum maxAcked recvMax payload lim)).getD "bad-op"
   | ["short", suite, phase, dcid, pnum, maxAcked, recvMax, payload, lim] =>
     (do
       let phase ← parseNat phase
